@@ -33,7 +33,7 @@ namespace c20 {
 
     // ---- capability description of one API shape -------------------------------------------------
     // upd:   0 = none, 1 = update( val, f(bNew, item, arg), allow ), 2 = update( val, f(item, old*), allow ) + upsert,
-    //        3 = nogc: update( val, allow ) returning pair<iterator,bool>
+    //        3 = nogc: update( val, allow ) returning pair<iterator,bool>, 4 = as 2 without upsert (Feldman)
     // ptr:   get / extract (guarded_ptr or exempt_ptr / raw_ptr) offered
     // with:  *_with( key, less ) overloads offered
     // ordered: extract_min / extract_max offered
@@ -56,6 +56,7 @@ namespace c20 {
         if ( Caps::upd == 1 ) s += ",upd";
         if ( Caps::upd == 2 ) s += ",upd,ups";
         if ( Caps::upd == 3 ) s += ",ups";
+        if ( Caps::upd == 4 ) s += ",upd";
         if ( Caps::erase ) s += ",era,eraf";
         if ( Caps::with ) { s += ",conw"; if ( Caps::findf ) s += ",fndw"; if ( Caps::erase ) s += ",eraw,erafw"; }
         if ( Caps::ptr ) { s += ",get,ext"; if ( Caps::with ) s += ",getw,extw"; }
@@ -97,11 +98,14 @@ namespace c20 {
         static void xmax( C& c, KOut& o, kind_<GK_HP> ) { typename C::guarded_ptr gp = c.extract_max(); finish_hp( gp, o ); }
 
         // RCU: raw_ptr under rcu_lock, exempt_ptr
+        static void get_rcu_w( C& c, int k, KOut& o, bool_<true> )
+        { auto rp = c.get_with( KeyRef( k ), other_less()); o.res = rp ? fmt_of<F>( *rp ) : std::string( "null" ); }
+        static void get_rcu_w( C& c, int k, KOut& o, bool_<false> ) {}
         static void get( C& c, int k, bool with, KOut& o, kind_<GK_RCU> )
         {
             typename C::rcu_lock l;
-            typename C::raw_ptr rp = with ? get_w<typename C::raw_ptr>( c, k, bool_<With>()) : c.get( k );
-            o.res = rp ? fmt_of<F>( *rp ) : std::string( "null" );
+            if ( with ) get_rcu_w( c, k, o, bool_<With>());
+            else { auto rp = c.get( k ); o.res = rp ? fmt_of<F>( *rp ) : std::string( "null" ); }
         }
         template <typename X> static void finish_rcu( X& xp, KOut& o )
         {
@@ -140,6 +144,7 @@ namespace c20 {
         std::unique_ptr<Set> s;
         explicit SetAdapter( Seq const& q ): s( Mk::template make<Set>( q )) {}
         static std::string ops() { return ops_string<Caps, Env::kind>( false ); }
+        static size_t hp_need() { return hp_need_of<Set, Env::kind>::get(); }
         void quiesce() { Env::quiesce(); }
         void destroy() { s.reset(); }
 
@@ -170,6 +175,8 @@ namespace c20 {
         { if ( op.name == "upd" ) upd2( op.a, op.b, op.c != 0, o ); else ups2( op.a, op.b, op.c != 0, o ); return true; }
         bool do_upd( Op const& op, KOut& o, std::integral_constant<int, 3> )
         { if ( op.name != "ups" ) return false; ups3( op.a, op.b, op.c != 0, o ); return true; }
+        bool do_upd( Op const& op, KOut& o, std::integral_constant<int, 4> )
+        { if ( op.name != "upd" ) return false; upd2( op.a, op.b, op.c != 0, o ); return true; }
 
         // insert shapes: nogc returns an iterator
         void ins( int k, int v, KOut& o, kind_<GK_NOGC> ) { o.res = b2s( s->insert( Item( k, v )) != s->end()); }
@@ -299,6 +306,7 @@ namespace c20 {
         std::unique_ptr<Map> s;
         explicit MapAdapter( Seq const& q ): s( Mk::template make<Map>( q )) {}
         static std::string ops() { return ops_string<Caps, Env::kind>( true ); }
+        static size_t hp_need() { return hp_need_of<Map, Env::kind>::get(); }
         void quiesce() { Env::quiesce(); }
         void destroy() { s.reset(); }
 
@@ -319,6 +327,14 @@ namespace c20 {
                     o.calls += call_U( old == nullptr, p.first, old ? old->second : v, v ); p.second = v; }, op.c != 0 ));
             else
                 o.res = pair2s( s->upsert( (int) op.a, v, op.c != 0 ));
+            return true;
+        }
+        bool do_upd( Op const& op, KOut& o, std::integral_constant<int, 4> )
+        {
+            if ( op.name != "upd" ) return false;
+            int v = (int) op.b;
+            o.res = pair2s( s->update( (int) op.a, [&o, v]( value_type& p, value_type* old ) {
+                o.calls += call_U( old == nullptr, p.first, old ? old->second : v, v ); p.second = v; }, op.c != 0 ));
             return true;
         }
         bool do_upd( Op const& op, KOut& o, std::integral_constant<int, 3> )
